@@ -236,6 +236,7 @@ class Repo:
         cands = {fq for fq in inl.inlined_sites}
         by_fq = {fi.fq: fi for fi in funcs}
         refs = {}
+        cands = {fq for fq in cands if fq in by_fq}       # (nested local helpers are not functions of the table)
         for fq in cands:
             name = by_fq[fq].name
             users = set()
